@@ -4,8 +4,8 @@ import json,sys,shutil,os
 sid,prop,caught,missed,note=sys.argv[1:6]
 import glob
 import re as _re
-m=_re.match(r'(C\d\d)([cdefg])([ab])$',sid)
-src=(f'/tmp/seed{dict(c=3,d=4,e=5,f=6,g=7)[m.group(2)]}-{m.group(1)}/{m.group(3)}' if m else f'/tmp/seed2-{sid[:-1]}' if sid.endswith('b') else f'/tmp/seed-{sid}'); dst=f'/verif/seeded/{sid}'
+m=_re.match(r'(C\d\d)([cdefgh])([ab])$',sid)
+src=(f'/tmp/seed{dict(c=3,d=4,e=5,f=6,g=7,h=8)[m.group(2)]}-{m.group(1)}/{m.group(3)}' if m else f'/tmp/seed2-{sid[:-1]}' if sid.endswith('b') else f'/tmp/seed-{sid}'); dst=f'/verif/seeded/{sid}'
 os.makedirs(dst,exist_ok=True)
 for f in ['patch.diff','demo.diff','demo_cmd.txt']:
     shutil.copy(f'{src}/{f}',f'{dst}/{f}')
